@@ -480,31 +480,49 @@ func c15Severity(c *Ctx) {
 	sig := pfe.Obj.Type().(*types.Signature)
 	sParam := sig.Params().At(paramIndex(sig, "s"))
 	errParam := sig.Params().At(paramIndex(sig, "err"))
-	var unavail *ast.CaseClause
-	var deflt *ast.CaseClause
-	for _, sw := range findSwitches(pfe.Decl.Body, func(s *ast.SwitchStmt) bool { return s.Tag == nil }) {
-		for _, st := range sw.Body.List {
-			cc := st.(*ast.CaseClause)
-			if cc.List == nil {
-				deflt = cc
+	// every assignment of the problem's severity is classified by what its guards say about
+	// IsUnavailableError(err): known true (the outage region), known false, or not mentioned.
+	// The shape (switch, if chain, inverted test with the outage in the else branch) does not matter.
+	pm := parentMap(pfe.Decl.Body)
+	unavailTruth := func(n ast.Node) (known bool, truth bool) {
+		for _, a := range lexicalGuards(pm, n, pfe.Decl.Body) {
+			if a.Tag != nil {
+				continue
 			}
-			for _, e := range cc.List {
-				if call, ok := ast.Unparen(e).(*ast.CallExpr); ok && isCallTo(info, call, "internal/promapi.IsUnavailableError") && objOf(info, call.Args[0]) == errParam {
-					unavail = cc
+			e, t := ast.Unparen(a.E), a.Truth
+			for {
+				u, ok := e.(*ast.UnaryExpr)
+				if !ok || u.Op != token.NOT {
+					break
 				}
+				e, t = ast.Unparen(u.X), !t
+			}
+			if call, ok := e.(*ast.CallExpr); ok && isCallTo(info, call, "internal/promapi.IsUnavailableError") && len(call.Args) == 1 && objOf(info, call.Args[0]) == errParam {
+				return true, t
 			}
 		}
+		return false, false
 	}
-	if unavail == nil {
-		c.Bad("C15-R3", "problemFromError:IsUnavailableError case", pfe.Decl.Pos(), "no case classifies the error with promapi.IsUnavailableError(err)")
-		return
-	}
-	pm := parentMap(pfe.Decl.Body)
-	okWarn, okBug, usesCaller := false, true, false
-	ast.Inspect(unavail, func(n ast.Node) bool {
+	okWarn, okBug, usesCaller, nRegion, callerOutside := false, true, false, 0, false
+	var regionPos token.Pos
+	ast.Inspect(pfe.Decl.Body, func(n ast.Node) bool {
 		as, ok := n.(*ast.AssignStmt)
-		if !ok || len(as.Lhs) != 1 || typeQName(info.TypeOf(as.Lhs[0])) != "internal/checks.Severity" {
+		if !ok || len(as.Lhs) != 1 || len(as.Rhs) != 1 || typeQName(info.TypeOf(as.Lhs[0])) != "internal/checks.Severity" {
 			return true
+		}
+		known, truth := unavailTruth(as)
+		if !known || !truth {
+			if objOf(info, as.Rhs[0]) == sParam && known && !truth {
+				callerOutside = true
+			}
+			if objOf(info, as.Rhs[0]) == sParam && !known {
+				usesCaller = true // the caller's severity not excluded from the outage region
+			}
+			return true
+		}
+		nRegion++
+		if regionPos == token.NoPos {
+			regionPos = as.Pos()
 		}
 		if objOf(info, as.Rhs[0]) == sParam {
 			usesCaller = true
@@ -517,12 +535,10 @@ func c15Severity(c *Ctx) {
 		}
 		switch k.Name() {
 		case "Warning":
-			if pm[as] == ast.Node(unavail) {
-				okWarn = true
-			}
+			okWarn = true
 		case "Bug":
 			strict := false
-			for _, a := range lexicalGuards(pm, as, unavail) {
+			for _, a := range lexicalGuards(pm, as, pfe.Decl.Body) {
 				ast.Inspect(a.E, func(m ast.Node) bool {
 					if call, ok := m.(*ast.CallExpr); ok && a.Truth && isCallTo(info, call, "internal/promapi.FailoverGroupError.IsStrict") {
 						strict = true
@@ -538,10 +554,14 @@ func c15Severity(c *Ctx) {
 		}
 		return true
 	})
-	c.Check(okWarn && !usesCaller, "C15-R3", "problemFromError:unavailable => Warning", unavail.Pos(), "Warning", "an unavailable server is not reported as Warning (or takes the caller's severity)")
-	c.Check(okBug, "C15-R3", "problemFromError:Bug only when the server is required", unavail.Pos(), "guarded by IsStrict()", "severity above Warning is assigned for unavailability without perr.IsStrict()")
-	// the unavailable case precedes the default that uses the caller's severity
-	c.Check(deflt != nil && unavail.Pos() < deflt.Pos(), "C15-R3", "problemFromError:default case after the unavailability case", pfe.Decl.Pos(), "ordered", "default clause order changed")
+	if nRegion == 0 {
+		c.Bad("C15-R3", "problemFromError:IsUnavailableError case", pfe.Decl.Pos(), "no severity is assigned under promapi.IsUnavailableError(err)")
+		return
+	}
+	c.Check(okWarn && !usesCaller, "C15-R3", "problemFromError:unavailable => Warning", regionPos, "Warning", "an unavailable server is not reported as Warning (or takes the caller's severity)")
+	c.Check(okBug, "C15-R3", "problemFromError:Bug only when the server is required", regionPos, "guarded by IsStrict()", "severity above Warning is assigned for unavailability without perr.IsStrict()")
+	// the caller's severity is used only where the error is known not to be an outage
+	c.Check(callerOutside, "C15-R3", "problemFromError:default case after the unavailability case", pfe.Decl.Pos(), "caller severity only for errors that are not outages", "the caller's severity is no longer confined to errors that are not outages")
 	// the Problem uses the computed severity variable
 	okUse := false
 	for _, cl := range compositeLits(info, pfe.Decl.Body, "internal/checks.Problem") {
